@@ -302,6 +302,13 @@ func (p *Packer) packWalkFn(root, src, dst string, tarW *tar.Writer, meta *Meta,
 				return err
 			}
 
+			// Devices, pipes, sockets and the like are not part of a slug (see
+			// checkFileMode), whether met directly or through a link. Trying
+			// to copy one could also block forever.
+			if keepTarget, _ := checkFileMode(resolved.info.Mode()); !keepTarget {
+				return nil
+			}
+
 			// If the target is a directory we can recurse into the target
 			// directory by calling the packWalkFn with updated arguments.
 			if resolved.info.IsDir() {
